@@ -484,7 +484,8 @@ func (s *state) appendHandler(
 		Body: "*",
 	}
 	if err := s.path.addRule(implicitRule, desc, h.method); err != nil {
-		panic(fmt.Sprintf("bug: %v", err))
+		// An earlier method may have bound any verb on this method's path.
+		return fmt.Errorf("[%s] invalid implicit rule: %w", desc.FullName(), err)
 	}
 
 	// Add all ServiceConfig.http rules.
